@@ -38,7 +38,9 @@
 
 #include "common/circuit.hpp"
 #include "place_detailed/abacus_legalizer.hpp"
+#include "place_detailed/incr_net_model.hpp"
 #include "place_detailed/row_legalizer.hpp"
+#include "place_detailed/tetris_legalizer.hpp"
 #include "utils/helpers.hpp"
 
 using namespace coloquinte;
@@ -383,8 +385,8 @@ static Spec genDense(vh::Rng &g, int kind /*0 unit,1 grid,2 tiny*/, int maxCells
   int maxW;         // cell width in units
   if (kind == 0) {
     H = g.chance(7, 10) ? 1 : 2;
-    nRows = g.chance(1, 6) ? g.range(1, 2) : g.range(2, 24);
-    W = g.chance(1, 6) ? g.range(1, 5) : g.range(4, 40);
+    nRows = g.chance(1, 8) ? g.range(1, 2) : g.range(3, 30);
+    W = g.chance(1, 8) ? g.range(1, 5) : g.range(5, 60);
     maxW = 4 / H;
     if (g.chance(1, 2)) maxW = 1;  // every cell of the minimum size (area 1 when H == 1)
   } else if (kind == 1) {
@@ -455,6 +457,7 @@ static Spec genDense(vh::Rng &g, int kind /*0 unit,1 grid,2 tiny*/, int maxCells
   int minArea = INT_MAX;
   for (int i = 0; i < maxCells && area < want; ++i) {
     int w = g.range(1, maxW), rowsHigh = 1;
+    if (kind == 0 && H == 1 && nRows >= 2 && g.chance(1, 30)) { rowsHigh = 2; w = g.range(1, 2); }  // area 2-4, two rows
     if (kind == 1 && g.chance(1, 25)) { rowsHigh = g.range(2, std::min(4, nRows)); w = g.range(1, std::min(W, 2 * maxW)); }
     if (kind == 1 && g.chance(1, 40)) w = g.range(1, W);  // wider than a bin
     if (w > W) w = W;
@@ -672,7 +675,7 @@ static bool genDenseCase(vh::Rng &g, const vh::Args &a, Case &cs) {
     static const int shapes[] = {0, 0, 0, 0, 0, 3, 4, 5, 6, 8, 1, 7};
     int shape = shapes[g.range(0, kind == 2 ? 11 : 9)];
     cs.shape = shape;
-    int maxCells = kind == 2 ? g.range(1, 4) : (a.thorough() ? g.range(10, 400) : g.range(10, g.chance(1, 4) ? 200 : 100));
+    int maxCells = kind == 2 ? g.range(1, 4) : (a.thorough() ? g.range(10, 400) : g.range(10, g.chance(1, 3) ? 250 : 120));
     DenseInfo di;
     cs.spec = genDense(g, kind, maxCells, shape == 8, di);
     if (shape == 1) {
@@ -702,7 +705,7 @@ static bool genDenseCase(vh::Rng &g, const vh::Args &a, Case &cs) {
     ex << ",dense_cells_" << (di.cells <= 4 ? "1-4" : (di.cells <= 30 ? "5-30" : (di.cells <= 100 ? "31-100" : "101+")))
        << ",dense_min_cell_area_" << (di.minArea == 1 ? "1" : (di.minArea <= 4 ? "2-4" : "5+"))
        << ",dense_density_" << (di.density > 1.0 + 1e-9 ? "above_100" : (di.density >= 1.0 - 1e-9 ? "exactly_100" : (di.density >= 0.9 ? "90-100" : (di.density >= 0.5 ? "50-90" : "below_50"))))
-       << ",dense_default_bins_" << (di.binsX * di.binsY == 1 ? "1" : (di.binsX == 1 || di.binsY == 1 ? "1xN" : (di.binsX * di.binsY <= 16 ? "NxM<=16" : "NxM>16")));
+       << ",dense_default_bins_" << (di.binsX * di.binsY == 1 ? "1" : (di.binsX == 1 || di.binsY == 1 ? "1xN" : (di.binsX * di.binsY <= 16 ? "NxM_up_to_16" : "NxM_above_16")));
     cs.extra = ex.str();
     std::string err = cs.spec.domainError();
     if (err.empty()) return true;
@@ -758,7 +761,10 @@ static std::string summarize(const std::string &diag) {
                ln.find("ERROR: AddressSanitizer") != std::string::npos || ln.find("SUMMARY") != std::string::npos ||
                ln.find("terminate called") != std::string::npos || ln.find("what():") != std::string::npos ||
                ln.find("TIMEOUT stack") != std::string::npos;
-    bool frame = ln.find("    #") == 0 && frames < 8 && ln.find("coloquinte::") != std::string::npos;
+    // frames of the library (Transportation1d* and a few helpers live outside the coloquinte namespace)
+    bool frame = ln.find("    #") == 0 && frames < 8 &&
+                 (ln.find("coloquinte::") != std::string::npos || ln.find("/src/place_") != std::string::npos ||
+                  ln.find("/src/utils/") != std::string::npos || ln.find("/src/coloquinte") != std::string::npos);
     if (frame) ++frames;
     if (key || frame) {
       if (out.size() < 1800) out += ln.substr(0, 300) + " | ";
@@ -1028,12 +1034,165 @@ static std::string abaImpl(const Aba &a, std::ostream &impl) {
   return "";
 }
 
+// ------------------------------------------------------------------ stages T / Y : TetrisLegalizer driven directly
+// Stage T (in-domain): rows within +-2^22 (1-6 y-levels of 1-3 segments, row height up to 2^20), cells of width <= 2^22
+//   and height <= 2^22 (1-4 rows high), targets within +-2^22 and, as placeGlobal may hand over, up to +-2^29.
+//   The checked Lean model must return the same placement and never fault.
+// Stage Y (beyond the domain): coordinates, widths and targets up to 2^31; one forked child per case; the checked
+//   model must predict exactly whether UBSan kills the real code (int overflow in closestRow / getPossibleIntervals /
+//   attemptPlacement / placeCell / instanciateCell) and the placement otherwise.
+struct TetInst {
+  std::vector<Row> rows;
+  std::vector<int> w, h, tx, ty;
+  std::vector<CellRowPolarity> pol;
+  std::vector<CellOrientation> o;
+  std::string ops() const {
+    std::ostringstream os;
+    os << "tnew\n";
+    for (auto &r : rows) os << "trow " << r.minX << " " << r.maxX << " " << r.minY << " " << r.maxY << " " << (int)r.orientation << "\n";
+    for (size_t i = 0; i < w.size(); ++i)
+      os << "tcell " << w[i] << " " << h[i] << " " << (int)pol[i] << " " << tx[i] << " " << ty[i] << " " << (int)o[i] << "\n";
+    os << "trun\n";
+    return os.str();
+  }
+};
+struct TetrisProbe : TetrisLegalizer {
+  using TetrisLegalizer::TetrisLegalizer;
+  bool placed(int i) const { return isPlaced(i); }
+};
+static void tetImpl(const TetInst &t, std::ostream &os) {
+  TetrisProbe leg(t.rows, t.w, t.h, t.pol, t.tx, t.ty, t.o);
+  leg.run();
+  os << "tetris";
+  for (size_t i = 0; i < t.w.size(); ++i)
+    os << " " << (leg.placed(i) ? 1 : 0) << " " << leg.cellLegalX()[i] << " " << leg.cellLegalY()[i] << " " << (int)leg.cellLegalOrientation()[i];
+  os << "\n";
+}
+// R: bound on every coordinate (2^22 in the domain); wild: widths/targets anywhere in the int range
+static TetInst genTet(vh::Rng &g, long long R, bool wild) {
+  TetInst t;
+  long long H = g.chance(1, 2) ? g.range(1, 16) : (1ll << g.range(0, 20));
+  if (g.chance(1, 4)) H = g.range(1, 1ll << 20);
+  int L = g.range(1, 6);
+  long long span = (long long)L * H + 2 * H;
+  long long y0 = g.chance(1, 3) ? -R : (g.chance(1, 2) ? R - span : g.range(-R, R - span));
+  long long y = y0;
+  for (int l = 0; l < L; ++l) {
+    if (g.chance(1, 8)) y += H;  // a missing level
+    if (y + H > R) break;
+    int segs = g.range(1, 3);
+    std::vector<long long> cuts;
+    for (int k = 0; k < 2 * segs; ++k) {
+      int m = g.range(0, 3);
+      cuts.push_back(m == 0 ? -R : (m == 1 ? R : g.range(-R, R)));
+    }
+    std::sort(cuts.begin(), cuts.end());
+    for (int k = 0; k < segs; ++k) {
+      long long a = cuts[2 * k], b = cuts[2 * k + 1];
+      if (b < a) std::swap(a, b);
+      t.rows.emplace_back((int)a, (int)b, (int)y, (int)(y + H), (CellOrientation)g.range(0, 7));
+    }
+    y += H;
+  }
+  if (t.rows.empty()) t.rows.emplace_back((int)-R, (int)R, (int)y0, (int)(y0 + H), CellOrientation::N);
+  for (size_t i = t.rows.size(); i > 1; --i) std::swap(t.rows[i - 1], t.rows[g.range(0, i - 1)]);
+  int n = g.range(1, 8);
+  long long T = wild ? INT_MAX : (1ll << 29);
+  for (int i = 0; i < n; ++i) {
+    const Row &r = t.rows[g.range(0, t.rows.size() - 1)];
+    long long rw = (long long)r.maxX - r.minX;
+    long long w;
+    int wm = g.range(0, 9);
+    if (wm < 5) w = g.range(0, std::max(1ll, rw / 4));
+    else if (wm < 7) w = g.range(1, 64);
+    else if (wm < 8) w = rw;
+    else if (wm < 9) w = g.range(0, std::min<long long>(wild ? INT_MAX : M22, 2 * R));
+    else w = 0;
+    if (!wild) w = std::min(w, M22);
+    w = std::min<long long>(w, INT_MAX);
+    long long hgt = H * g.range(1, 4);
+    if (g.chance(1, 10)) hgt = g.range(0, 4 * H);
+    if (!wild) hgt = std::min(hgt, M22);
+    long long tx, ty;
+    int tm = g.range(0, 9);
+    if (tm < 5) { tx = g.range((long long)r.minX - 8, (long long)r.maxX + 8); ty = g.range((long long)r.minY - 2 * H, (long long)r.minY + 2 * H); }
+    else if (tm < 7) { tx = g.range(-R, R); ty = g.range(-R, R); }
+    else if (tm < 8) { tx = g.chance(1, 2) ? -R : R; ty = g.chance(1, 2) ? -R : R; }
+    else { tx = g.range(-T, T); ty = g.range(-T, T); }
+    tx = std::max<long long>(-T, std::min<long long>(T, tx));
+    ty = std::max<long long>(-T, std::min<long long>(T, ty));
+    if (wild) { tx = std::max<long long>(INT_MIN, tx); ty = std::max<long long>(INT_MIN, ty); }
+    t.w.push_back((int)w); t.h.push_back((int)hgt); t.tx.push_back((int)tx); t.ty.push_back((int)ty);
+    t.pol.push_back(g.chance(1, 2) ? CellRowPolarity::ANY : (CellRowPolarity)g.range(1, 4));
+    t.o.push_back((CellOrientation)g.range(0, 7));
+  }
+  return t;
+}
+
+// ------------------------------------------------------------------ stages I / J : IncrNetModel driven directly
+// Stage I (in-domain): 1-8 cells with positions within +-2^23 (2^22 coordinates plus a cell width), nets of 0-6 pins with
+//   offsets within +-2^24 (nets of <= 1 pin are dropped by the builder), a build and up to 20 updateCellPos: value() after
+//   each step must equal the checked model's, which must never fault.
+// Stage J (beyond the domain): positions / offsets up to 2^31: the model must predict the UBSan kills
+//   (`cellPos_[c] + netPinOffset`, `second - first`, `newValue - oldValue`).
+struct IncInst {
+  int nbCells = 0;
+  std::vector<std::vector<int>> netCells, netOffs;
+  std::vector<int> pos;
+  std::vector<std::pair<int, int>> upd;
+  std::string ops() const {
+    std::ostringstream os;
+    os << "inew " << nbCells << "\n";
+    for (size_t n = 0; n < netCells.size(); ++n) {
+      os << "inet " << netCells[n].size();
+      for (size_t p = 0; p < netCells[n].size(); ++p) os << " " << netCells[n][p] << " " << netOffs[n][p];
+      os << "\n";
+    }
+    os << "ibuild";
+    for (int p : pos) os << " " << p;
+    os << "\n";
+    for (auto &u : upd) os << "iupd " << u.first << " " << u.second << "\n";
+    return os.str();
+  }
+};
+static void incImpl(const IncInst &t, std::ostream &os) {
+  IncrNetModelBuilder b(t.nbCells);
+  for (size_t n = 0; n < t.netCells.size(); ++n) b.addNet(t.netCells[n], t.netOffs[n]);
+  IncrNetModel m = b.build(t.pos);
+  os << "ibuild " << m.value() << "\n";
+  for (auto &u : t.upd) {
+    m.updateCellPos(u.first, u.second);
+    os << "iupd " << m.value() << "\n";
+  }
+}
+static IncInst genInc(vh::Rng &g, bool wild) {
+  IncInst t;
+  long long P = wild ? (1ll << g.range(24, 31)) - 1 : (1ll << 23), O = wild ? (1ll << g.range(24, 31)) - 1 : (1ll << 24);
+  auto coord = [&](long long B) -> int {
+    int m = g.range(0, 5);
+    long long v = m == 0 ? -B : (m == 1 ? B : (m == 2 ? g.range(-64, 64) : g.range(-B, B)));
+    return (int)std::max<long long>(INT_MIN, std::min<long long>(INT_MAX, v));
+  };
+  t.nbCells = g.range(1, 8);
+  int nn = g.range(0, 10);
+  for (int n = 0; n < nn; ++n) {
+    int deg = g.chance(1, 8) ? g.range(0, 1) : g.range(2, 6);
+    std::vector<int> c, o;
+    for (int p = 0; p < deg; ++p) { c.push_back(g.range(0, t.nbCells - 1)); o.push_back(coord(O)); }
+    t.netCells.push_back(c); t.netOffs.push_back(o);
+  }
+  for (int i = 0; i < t.nbCells; ++i) t.pos.push_back(coord(P));
+  int nu = g.range(0, 20);
+  for (int i = 0; i < nu; ++i) t.upd.push_back({(int)g.range(0, t.nbCells - 1), coord(P)});
+  return t;
+}
+
 // ------------------------------------------------------------------ worker
-struct Plan { long long nFlow, nDense, nM, nX, nS, nA; int timeout; };
+struct Plan { long long nFlow, nDense, nM, nX, nS, nA, nT, nY, nI, nJ; int timeout; };
 static Plan planFor(const vh::Args &a) {
-  if (a.thorough()) return {12000, 8000, 60000, 3000, 3000, 20000, 300};
-  if (a.search()) return {2500, 1500, 20000, 600, 1500, 20000, 120};
-  return {1500, 600, 20000, 1200, 400, 6000, 120};
+  if (a.thorough()) return {12000, 20000, 60000, 3000, 3000, 20000, 40000, 3000, 40000, 3000, 300};
+  if (a.search()) return {2500, 4000, 20000, 600, 1500, 20000, 10000, 600, 10000, 600, 120};
+  return {1500, 2500, 20000, 1200, 400, 6000, 10000, 1000, 10000, 1000, 120};
 }
 static const int MBATCH = 500;
 
@@ -1208,6 +1367,81 @@ static void worker(const vh::Args &a, int w, int J, const Plan &pl, const std::s
     }
     writeRec(f, r);
   }
+  // stage T: batches of in-domain Tetris instances, one child per batch
+  long long nTB = (pl.nT + MBATCH - 1) / MBATCH;
+  for (long long bt = w; bt < nTB && stageOn('T'); bt += J) {
+    Rec r; r.k = bt; r.stage = "T"; r.id = "t" + std::to_string(bt);
+    std::ostringstream ops;
+    std::vector<TetInst> v;
+    for (long long i = bt * MBATCH; i < std::min<long long>(pl.nT, (bt + 1) * MBATCH); ++i) {
+      vh::Rng g = vh::Rng::forCase(a.seed ^ 0x5454, i);
+      v.push_back(genTet(g, M22, false));
+      ops << "case t" << i << "\n" << v.back().ops();
+    }
+    std::string output, diag;
+    std::string fate = vh::isolated([&](std::ostream &os) {
+      for (size_t j = 0; j < v.size(); ++j) { os << "case t" << (bt * MBATCH + (long long)j) << "\n"; tetImpl(v[j], os); }
+    }, output, pl.timeout, &diag);
+    r.fate = fate; r.ops = ops.str(); r.impl = output;
+    r.counts = "tetris_domain_instances=" + std::to_string(v.size());
+    if (fate != "ok") {
+      r.what = "[tetris_unit] TetrisLegalizer faulted (" + fate + ") on an in-domain instance at 2^22 magnitude: " + summarize(diag);
+      r.input = r.ops;
+      r.impl = "";
+    }
+    writeRec(f, r);
+  }
+  // stage Y: one child per beyond-domain Tetris instance
+  for (long long k = w; k < pl.nY && stageOn('Y'); k += J) {
+    vh::Rng g = vh::Rng::forCase(a.seed ^ 0x5959, k);
+    int mag = g.range(23, 31);
+    TetInst t = genTet(g, (1ll << mag) - 1 - (1ll << 22), true);
+    Rec r; r.k = k; r.stage = "Y"; r.id = "y" + std::to_string(k);
+    r.ops = "xcase y" + std::to_string(k) + "\n" + t.ops() + "endx\n";
+    std::string output, diag;
+    std::string fate = vh::isolated([&](std::ostream &os) { tetImpl(t, os); }, output, pl.timeout, &diag);
+    r.fate = fate;
+    r.impl = "xcase y" + std::to_string(k) + "\n" + (fate == "ok" ? output : std::string("fault\n"));
+    r.counts = std::string("tetris_wild_") + (fate == "ok" ? "no_fault" : "fault_" + fate);
+    writeRec(f, r);
+  }
+  // stage I: batches of in-domain IncrNetModel sessions, one child per batch
+  long long nIB = (pl.nI + MBATCH - 1) / MBATCH;
+  for (long long bt = w; bt < nIB && stageOn('I'); bt += J) {
+    Rec r; r.k = bt; r.stage = "I"; r.id = "i" + std::to_string(bt);
+    std::ostringstream ops;
+    std::vector<IncInst> v;
+    for (long long i = bt * MBATCH; i < std::min<long long>(pl.nI, (bt + 1) * MBATCH); ++i) {
+      vh::Rng g = vh::Rng::forCase(a.seed ^ 0x4949, i);
+      v.push_back(genInc(g, false));
+      ops << "case i" << i << "\n" << v.back().ops();
+    }
+    std::string output, diag;
+    std::string fate = vh::isolated([&](std::ostream &os) {
+      for (size_t j = 0; j < v.size(); ++j) { os << "case i" << (bt * MBATCH + (long long)j) << "\n"; incImpl(v[j], os); }
+    }, output, pl.timeout, &diag);
+    r.fate = fate; r.ops = ops.str(); r.impl = output;
+    r.counts = "incrnet_domain_instances=" + std::to_string(v.size());
+    if (fate != "ok") {
+      r.what = "[incrnet_unit] IncrNetModel faulted (" + fate + ") on an in-domain session at 2^22 magnitude: " + summarize(diag);
+      r.input = r.ops;
+      r.impl = "";
+    }
+    writeRec(f, r);
+  }
+  // stage J: one child per beyond-domain IncrNetModel session
+  for (long long k = w; k < pl.nJ && stageOn('J'); k += J) {
+    vh::Rng g = vh::Rng::forCase(a.seed ^ 0x4a4a, k);
+    IncInst t = genInc(g, true);
+    Rec r; r.k = k; r.stage = "J"; r.id = "j" + std::to_string(k);
+    r.ops = "xcase j" + std::to_string(k) + "\n" + t.ops() + "endx\n";
+    std::string output, diag;
+    std::string fate = vh::isolated([&](std::ostream &os) { incImpl(t, os); }, output, pl.timeout, &diag);
+    r.fate = fate;
+    r.impl = "xcase j" + std::to_string(k) + "\n" + (fate == "ok" ? output : std::string("fault\n"));
+    r.counts = std::string("incrnet_wild_") + (fate == "ok" ? "no_fault" : "fault_" + fate);
+    writeRec(f, r);
+  }
 }
 
 // ------------------------------------------------------------------ replay
@@ -1349,7 +1583,7 @@ int main(int argc, char **argv) {
     for (auto &r : readRecs(p)) recs.push_back(r);
     unlink(p.c_str());
   }
-  static const std::string order = "CFMXSA";
+  static const std::string order = "CFMXSATYIJPQ";
   std::stable_sort(recs.begin(), recs.end(), [](const Rec &x, const Rec &y) {
     size_t sx = order.find(x.stage), sy = order.find(y.stage);
     return sx != sy ? sx < sy : x.k < y.k;
@@ -1378,14 +1612,14 @@ int main(int argc, char **argv) {
     }
     if (r.fate == "skipped") continue;
     if (r.stage == "F" || r.stage == "C") out.evaluations++;
-    else if (r.stage == "M" || r.stage == "A") { /* counted through the distribution */ }
+    else if (r.stage == "M" || r.stage == "A" || r.stage == "T" || r.stage == "I") { /* counted through the distribution */ }
     else out.evaluations++;
     if (r.nontrivialHash) out.nontrivial(r.nontrivialHash);
     if (!r.sample.empty() && (r.k % 97 == 0 || r.fate != "ok")) out.sample(r.sample);
     out.ops << r.ops;
     out.impl << r.impl;
     // a fault of stage X (beyond the domain) is not a property failure; it is compared with the model's prediction
-    if (r.stage != "X" && r.fate != "ok") {
+    if (r.stage != "X" && r.stage != "Y" && r.stage != "J" && r.fate != "ok") {
       // keep every kind of failure visible below the 200-line cap of oracle.txt
       size_t a = r.what.find('['), b = r.what.find(']');
       std::string tag = (a != std::string::npos && b != std::string::npos && b > a) ? r.what.substr(a, b - a + 1) : "[untagged]";
@@ -1405,7 +1639,7 @@ int main(int argc, char **argv) {
     }
     out.notes.push_back(note);
   }
-  out.evaluations += out.dist["rowleg_domain_instances"] + out.dist["abacus_eval_instances"];
+  out.evaluations += out.dist["rowleg_domain_instances"] + out.dist["abacus_eval_instances"] + out.dist["tetris_domain_instances"] + out.dist["incrnet_domain_instances"];
   if (workerDied) out.notes.push_back("a worker process died: results are incomplete");
   out.finish();
   return workerDied ? 4 : 0;
